@@ -4,6 +4,8 @@ import (
 	"bytes"
 	"encoding/json"
 	"fmt"
+	"os"
+	"path/filepath"
 	"reflect"
 	"sort"
 	"strconv"
@@ -701,6 +703,112 @@ func genDocCase(rng *fw.Rng, idx int64) *docCase {
 	return dc
 }
 
+// judgeText: malformed at the level of the text (not a single JSON value): through json.Unmarshal and through the
+// file loader LoadJSONTileMatrixSet. TextCase.Text is what is decoded; Valid says whether it is one complete JSON value.
+type textCase struct {
+	Base  string `json:"base"`
+	How   string `json:"text_defect"`
+	Text  string `json:"text"`
+	Valid bool   `json:"text_is_one_json_value"`
+}
+
+func genTextCase(rng *fw.Rng, dc *docCase) *textCase {
+	doc := strings.TrimRight(dc.Doc, " \t\r\n")
+	tc := &textCase{Base: dc.Base + " / " + strings.Join(dc.Muts, "; ")}
+	switch rng.Intn(6) {
+	case 0:
+		tc.How, tc.Text, tc.Valid = "unchanged (control)", dc.Doc+"\n \n", true
+	case 1:
+		j := fw.Pick(rng, []string{"}", "]", "garbage", "<<<<<<< HEAD", "0", "null", "\"x\"", ",", "{}"})
+		tc.How, tc.Text = "trailing "+j, doc+fw.Pick(rng, []string{"", "\n", " "})+j
+	case 2:
+		tc.How, tc.Text = "document written twice", doc+"\n"+doc
+	case 3:
+		p := 1 + rng.Intn(len(doc)-1)
+		tc.How, tc.Text = fmt.Sprintf("truncated after %d of %d bytes", p, len(doc)), doc[:p]
+	case 4: // the top-level object closed too early: the rest of the members follow the object
+		idx := []int{}
+		depth := 0
+		inStr, esc := false, false
+		for i := 0; i < len(doc); i++ {
+			ch := doc[i]
+			switch {
+			case esc:
+				esc = false
+			case inStr && ch == '\\':
+				esc = true
+			case ch == '"':
+				inStr = !inStr
+			case inStr:
+			case ch == '{' || ch == '[':
+				depth++
+			case ch == '}' || ch == ']':
+				depth--
+			case ch == ',' && depth == 1:
+				idx = append(idx, i)
+			}
+		}
+		if len(idx) == 0 {
+			return nil
+		}
+		p := fw.Pick(rng, idx)
+		tc.How, tc.Text = "top-level object closed early", doc[:p]+"}"+doc[p:]
+	default:
+		tc.How, tc.Text = "leading junk", fw.Pick(rng, []string{"x", "}", "// comment\n", "\ufeff"})+doc
+	}
+	return tc
+}
+
+func judgeText(c *fw.Ctx, tc *textCase) {
+	cj, _ := json.Marshal(tc)
+	c.Rec.SetCurrent(cj)
+	c.Rec.Eval()
+	var v1, v2 tms20.TileMatrixSet
+	var err1, err2 error
+	var pan any
+	func() {
+		defer func() { pan = recover() }()
+		err1 = json.Unmarshal([]byte(tc.Text), &v1)
+	}()
+	if pan != nil {
+		c.Rec.Violation("decode-panics", "text:"+tc.How, fmt.Sprintf("json.Unmarshal of a text with the defect %q (%s) panicked: %v", tc.How, tc.Base, pan), cj, nil)
+		return
+	}
+	path := filepath.Join(c.Tmp, "c16_text.json")
+	if err := os.WriteFile(path, []byte(tc.Text), 0o644); err != nil {
+		c.Rec.Note(err.Error())
+		return
+	}
+	func() {
+		defer func() { pan = recover() }()
+		v2, err2 = tms20.LoadJSONTileMatrixSet(path)
+	}()
+	if pan != nil {
+		c.Rec.Violation("decode-panics", "file:"+tc.How, fmt.Sprintf("LoadJSONTileMatrixSet of a file with the defect %q (%s) panicked: %v", tc.How, tc.Base, pan), cj, nil)
+		return
+	}
+	c.Rec.Count("text_level_cases")
+	c.Rec.NonTrivial(fw.Hash64([]byte(tc.Text)))
+	if !tc.Valid {
+		c.Rec.Count("text_defect:" + strings.SplitN(tc.How, " ", 2)[0])
+		if err1 == nil {
+			c.Rec.Violation("malformed-document-accepted", "", fmt.Sprintf("json.Unmarshal accepts a text that is not one JSON value (%s; %s)", tc.How, tc.Base), cj, nil)
+		}
+		if err2 == nil {
+			c.Rec.Violation("malformed-document-accepted", "", fmt.Sprintf("LoadJSONTileMatrixSet accepts a file that is not one JSON value (%s; %s)", tc.How, tc.Base), cj, nil)
+		}
+		return
+	}
+	// control: the file loader and json.Unmarshal agree on a well-formed text
+	switch {
+	case (err1 == nil) != (err2 == nil):
+		c.Rec.Violation("file-loader-disagrees", "", fmt.Sprintf("the same text: json.Unmarshal err=%v, LoadJSONTileMatrixSet err=%v (%s)", err1, err2, tc.Base), cj, nil)
+	case err1 == nil && !semEqual(reflect.ValueOf(v1), reflect.ValueOf(v2)):
+		c.Rec.Violation("file-loader-disagrees", "", fmt.Sprintf("the same text decodes to different values through json.Unmarshal and LoadJSONTileMatrixSet: %s (%s)", firstDiff(v1, v2), tc.Base), cj, nil)
+	}
+	c.Rec.Count("text_level_controls")
+}
+
 func init() {
 	fw.Register(&fw.Prop{
 		ID: "C16", Cases: tierN(80000, 2000000),
@@ -711,11 +819,21 @@ func init() {
 				return
 			}
 			judgeDoc(c, dc)
+			if c.Idx%10 == 3 {
+				if tc := genTextCase(c.Rng, dc); tc != nil {
+					judgeText(c, tc)
+				}
+			}
 			if c.Idx%2000 < 16 { // each worker, every 2000 cases
 				checkEmbeddedStillOriginal(c)
 			}
 		},
 		Replay: func(c *fw.Ctx, raw json.RawMessage) {
+			var tc textCase
+			if json.Unmarshal(raw, &tc) == nil && tc.How != "" {
+				judgeText(c, &tc)
+				return
+			}
 			var dc docCase
 			if err := json.Unmarshal(raw, &dc); err != nil {
 				c.Rec.Note(err.Error())
@@ -727,9 +845,9 @@ func init() {
 			}
 			judgeDoc(c, &dc)
 		},
-		Rule: "the 14 built-in documents + one synthetic document using every optional member, unmodified and under 1-3 composed structural mutations (delete member, replace by another JSON kind, numeric/string edge values, drop/duplicate/extend array elements, unknown members, CRS swapped among URI string / URI object / wkt / referenceSystem forms); every document that decodes: encode, decode again, DeepEqual of the two values incl. dynamic CRS type, second encoding byte-identical; unmodified documents: re-encoded JSON semantically equal to the file; documents in a demanded-reject class (independent predicate on the JSON tree: crs or tileMatrices missing/null/wrong kind/empty, typed member of another JSON kind, sizes/cell size/scale <= 0, non-integer id) must return an error; no document may panic; history clauses: after a sibling document with the same crs uri in the other form (string <-> object) is decoded, the first value must still encode as before, and the embedded built-in sets handed out by LoadEmbeddedTileMatrixSet must still re-encode to their documents after thousands of other decodes in the same process; non-trivial = document that decodes or falls in a demanded class; distinct by document text",
+		Rule: "the 14 built-in documents + one synthetic document using every optional member, unmodified and under 1-3 composed structural mutations (delete member, replace by another JSON kind, numeric/string edge values, drop/duplicate/extend array elements, unknown members, CRS swapped among URI string / URI object / wkt / referenceSystem forms); every document that decodes: encode, decode again, DeepEqual of the two values incl. dynamic CRS type, second encoding byte-identical; unmodified documents: re-encoded JSON semantically equal to the file; documents in a demanded-reject class (independent predicate on the JSON tree: crs or tileMatrices missing/null/wrong kind/empty, typed member of another JSON kind, sizes/cell size/scale <= 0, non-integer id) must return an error; no document may panic; every 10th case additionally as TEXT that is not one JSON value (trailing junk, the document twice, truncated, top-level object closed early, leading junk), through json.Unmarshal and through the file loader LoadJSONTileMatrixSet: both must return an error, and on well-formed text the two must agree; history clauses: after a sibling document with the same crs uri in the other form (string <-> object) is decoded, the first value must still encode as before, and the embedded built-in sets handed out by LoadEmbeddedTileMatrixSet must still re-encode to their documents after thousands of other decodes in the same process; non-trivial = document that decodes or falls in a demanded class; distinct by document text",
 		Required: func(string) []string {
-			return []string{"history:sibling_documents_decoded_between_encodings", "history:embedded_sets_re-encoded_after_other_decodes", "decoded", "rejected_with_error", "demanded_reject_documents", "original_documents_compared", "crs_form:URICRS", "crs_form:URICRS-as-string", "crs_form:WKTCRS", "crs_form:ReferenceSystemCRS"}
+			return []string{"history:sibling_documents_decoded_between_encodings", "history:embedded_sets_re-encoded_after_other_decodes", "decoded", "rejected_with_error", "demanded_reject_documents", "original_documents_compared", "crs_form:URICRS", "crs_form:URICRS-as-string", "crs_form:WKTCRS", "crs_form:ReferenceSystemCRS", "text_level_cases", "text_level_controls", "text_defect:trailing", "text_defect:truncated", "text_defect:top-level", "text_defect:document"}
 		},
 		MinNonTriv:  1000,
 		Assumptions: []string{"accept/reject is demanded only for the classes the statement names; null for an optional member, fractional sizes, duplicate ids, short arrays and unknown members carry no demand", "value equality = deep equality of tms20.TileMatrixSet incl. unexported CRS fields, nil and empty lists/maps being equal"},
